@@ -18,14 +18,14 @@ L = 2**252 + 27742317777372353535851937790883648493
 CT_OPS = [
     "sc_add", "sc_sub", "sc_mul", "sc_neg", "sc_invert", "sc_from_bytes_mod_order", "sc_from_bytes_mod_order_wide",
     "sc_from_canonical_bytes", "sc_batch_invert",
-    "ed_add", "ed_sub", "ed_compress", "ed_ct_eq", "ed_mul_base", "ed_mul", "ed_mul_secret_point", "ed_mul_clamped", "ed_mul_base_clamped",
+    "ed_add", "ed_sub", "ed_compress", "ed_compress_sp1", "ed_to_montgomery", "ed_neg", "ed_double", "ed_ct_eq", "ed_mul_base", "ed_mul", "ed_mul_secret_point", "ed_mul_clamped", "ed_mul_base_clamped",
     "ed_multiscalar_1", "ed_multiscalar_2", "ed_multiscalar_3",
     "ed_table_radix16", "ed_table_radix32", "ed_table_radix64", "ed_table_radix128", "ed_table_radix256",
     "mont_mul_clamped", "mont_mul", "mont_mul_bits_be", "x25519", "x25519_public_key", "x25519_dh",
     "ris_compress", "ris_from_uniform_bytes", "sig_from_bytes", "sig_sign", "sig_sign_prehashed",
 ]
 QUICK_OPS = ["sc_mul", "sc_invert", "sc_from_bytes_mod_order_wide", "ed_add", "ed_compress", "ed_mul_base", "ed_mul", "ed_multiscalar_2",
-             "mont_mul_clamped", "ris_from_uniform_bytes", "sig_sign", "x25519", "sc_add", "ed_ct_eq"]
+             "mont_mul_clamped", "ris_from_uniform_bytes", "sig_sign", "x25519", "sc_add", "ed_ct_eq", "mont_mul", "ed_to_montgomery"]
 TABLE_OPS = [o for o in CT_OPS if o.startswith("ed_table_")]
 CONTROLS = ["vartime_double_base", "vartime_multiscalar"]
 
